@@ -132,7 +132,25 @@ fn unissued_liquidity_tokens(run: &Run, thorough: bool) {
     println!("  scenario unissued-liquidity-tokens: depth {} states {} transitions {}", st.depth_completed, st.states, st.transitions);
 }
 
+/// Deposits and withdrawals of amounts near the maximum coin value (2^110, 2^100) into the built-in MEL/SYM pool, several per block.
+fn huge_liquidity(run: &Run, thorough: bool) {
+    let rootn = root_huge(NetID::Custom02);
+    let mut cfg = cfg_liquidity();
+    cfg.mints = false;
+    cfg.swaps = false;
+    cfg.max_txs_per_block = 3;
+    cfg.only_pools = Some(vec![PoolKey::new(Denom::Mel, Denom::Sym)]);
+    let eng = Engine::new(run);
+    let c2 = cfg.clone();
+    let acts = move |n: &Node| actions(n, &c2);
+    let visit = |_n: &Node| {};
+    let st = bfs(&eng, vec![rootn], if thorough { 9 } else { 7 }, 400_000, &acts, &visit);
+    run.set("scenario:custom02-huge-liquidity", json!({"depth_bound_completed": st.depth_completed, "unique_states": st.states, "transitions": st.transitions}));
+    println!("  scenario custom02-huge-liquidity: depth {} states {} transitions {}", st.depth_completed, st.states, st.transitions);
+}
+
 pub fn run(run: &Run) {
+    huge_liquidity(run, run.thorough());
     unissued_liquidity_tokens(run, run.thorough());
     custom_pool_withdrawals(run, run.thorough());
     for sc in scenarios(run.thorough()) {
